@@ -11,14 +11,28 @@ import (
 	"io"
 	"math/big"
 	"testing"
+	"time"
 
 	"github.com/ethereum/go-ethereum/common"
 	"github.com/gauss-project/aurorafs/pkg/boson"
 	"github.com/gauss-project/aurorafs/pkg/logging"
+	chainTrafficMock "github.com/gauss-project/aurorafs/pkg/settlement/chain/traffic/mock"
 	chequePkg "github.com/gauss-project/aurorafs/pkg/settlement/traffic/cheque"
 	"github.com/gauss-project/aurorafs/pkg/statestore/mock"
 	"github.com/gauss-project/aurorafs/pkg/subscribe"
 )
+
+type verifCashout struct{}
+
+func (verifCashout) CashCheque(context.Context, boson.Address, common.Address, common.Address) (common.Hash, error) { return common.HexToHash("ee"), nil }
+func (verifCashout) WaitForReceipt(context.Context, common.Hash) (uint64, error) { return 1, nil }
+
+type verifBook31 struct{ peer boson.Address; chain common.Address }
+
+func (b verifBook31) Beneficiary(p boson.Address) (common.Address, bool) { return b.chain, p.Equal(b.peer) }
+func (b verifBook31) BeneficiaryPeer(c common.Address) (boson.Address, bool) { return b.peer, c == b.chain }
+func (b verifBook31) PutBeneficiary(boson.Address, common.Address) error { return nil }
+func (b verifBook31) InitAddressBook() error { return nil }
 
 type verifSigner struct{}
 
@@ -44,6 +58,7 @@ func TestVerifReplay(t *testing.T) {
 				chequeStore:  chequePkg.NewChequeStore(st, self, func(c *chequePkg.SignedCheque, _ int64) (common.Address, error) { return c.Beneficiary, nil }, 1),
 				trafficPeers: TrafficPeer{trafficPeers: map[string]*Traffic{}, balance: big.NewInt(1000), totalPaidOut: big.NewInt(0)},
 				chequeSigner: verifSigner{}, protocol: proto, subPub: subscribe.NewSubPub(),
+				addressBook: verifBook31{peer: peer, chain: peerChain},
 				notifyPaymentFunc: func(boson.Address, *big.Int) error { return nil },
 			}
 			tr := s.getTraffic(peerChain)
@@ -73,6 +88,37 @@ func TestVerifReplay(t *testing.T) {
 			if err == nil && tr.retrieveChequeTraffic.Cmp(tr.retrieveTraffic) > 0 {
 				t.Logf("REPLAY-CONFIRMED cheque total %v exceeds the traffic owed %v", tr.retrieveChequeTraffic, tr.retrieveTraffic); return
 			}
+		}
+	}
+	// ---- a cheque received from the peer is cashed and the receipt comes back: the record of what
+	// the PEER has cashed from us must be what the chain says (here 0), whatever we have issued
+	{
+		st := mock.NewStateStore()
+		chain := chainTrafficMock.New(
+			chainTrafficMock.WithBalanceOf(func(common.Address) (*big.Int, error) { return big.NewInt(1000), nil }),
+			chainTrafficMock.WithTransAmount(func(common.Address, common.Address) (*big.Int, error) { return big.NewInt(0), nil }),
+		)
+		s := &Service{
+			logger: logging.New(io.Discard, 0), chainAddress: self, store: st, trafficChainService: chain,
+			chequeStore:  chequePkg.NewChequeStore(st, self, func(c *chequePkg.SignedCheque, _ int64) (common.Address, error) { return c.Beneficiary, nil }, 1),
+			trafficPeers: TrafficPeer{trafficPeers: map[string]*Traffic{}, balance: big.NewInt(1000), totalPaidOut: big.NewInt(0)},
+			cashout: verifCashout{}, addressBook: verifBook31{peer: peer, chain: peerChain},
+			subPub: subscribe.NewSubPub(), cashChequeChan: make(chan cashCheque, 5),
+		}
+		tr := s.getTraffic(peerChain)
+		tr.retrieveChequeTraffic = big.NewInt(40) // cheques we issued to the peer, not cashed by it
+		tr.retrieveTraffic = big.NewInt(40)
+		tr.transferChequeTraffic = big.NewInt(25) // the cheque of the peer we are cashing
+		tr.transferTraffic = big.NewInt(25)
+		s.cashChequeReceiptUpdate()
+		s.cashChequeChan <- cashCheque{txHash: common.HexToHash("ee"), peer: peer, chainAddress: peerChain}
+		time.Sleep(300 * time.Millisecond)
+		tr.Lock()
+		cashed := new(big.Int).Set(tr.retrieveChainTraffic)
+		tr.Unlock()
+		if cashed.Sign() != 0 {
+			avail, _ := s.AvailableBalance()
+			t.Logf("REPLAY-CONFIRMED after the receipt of our cash-out the record of what the peer has cashed from us is %v although the chain says 0 (we had issued 40 in cheques it has not cashed); available balance %v", cashed, avail); return
 		}
 	}
 	t.Logf("not reproduced")
